@@ -13,6 +13,7 @@ use iggy::locking::IggySharedMut;
 use iggy::locking::IggySharedMutFn;
 use serde::{Deserialize, Serialize};
 use std::path::Path;
+use std::sync::atomic::Ordering;
 use std::sync::Arc;
 use tokio::fs;
 use tokio::fs::create_dir_all;
@@ -152,6 +153,11 @@ impl TopicStorage for FileTopicStorage {
                         "{COMPONENT} (error: {error}) - failed to persist partition: {partition}"
                     )
                 })?;
+                // The segment created above is dropped from memory and loaded again from disk below:
+                // take it out of the stream-wide segment counter as well, `load` counts it when it finds the file.
+                partition
+                    .segments_count_of_parent_stream
+                    .fetch_sub(partition.get_segments_count(), Ordering::SeqCst);
                 partition.segments.clear();
                 unloaded_partitions.push(partition);
                 info!(
